@@ -470,7 +470,12 @@ fn slice(array: &[Rcvar], start: Option<i32>, stop: Option<i32>, step: i32) -> V
     if step > 0 {
         while i < b {
             result.push(array[i as usize].clone());
-            i += step;
+            // A step near i32::MAX can carry the cursor past the i32 range;
+            // nothing further can be selected in that case.
+            i = match i.checked_add(step) {
+                Some(next) => next,
+                None => break,
+            };
         }
     } else {
         while i > b {
